@@ -83,9 +83,15 @@ func opGen() *rapid.Generator[bz.ROp] {
 	return rapid.Custom(func(t *rapid.T) bz.ROp {
 		if rapid.IntRange(0, 9).Draw(t, "setcache") == 0 {
 			kind := rapid.IntRange(0, 3).Draw(t, "kind")
-			cp := rapid.IntRange(1, 6).Draw(t, "cap")
+			cp := rapid.SampledFrom([]int{1, 1, 2, 2, 3, 4, 6, 8, 16}).Draw(t, "cap")
 			st := rapid.IntRange(0, 1).Draw(t, "stats")
 			return bz.ROp{K: "setcache", A: kind*100 + cp*2 + st}
+		}
+		switch rapid.IntRange(0, 19).Draw(t, "extra") {
+		case 0:
+			return bz.ROp{K: "seekend"}
+		case 1, 2:
+			return bz.ROp{K: "settle", N: rapid.IntRange(0, 3).Draw(t, "ms")}
 		}
 		op := bz.ROpGen().Draw(t, "op")
 		if op.K == "seek" && rapid.Bool().Draw(t, "blockStart") {
@@ -110,7 +116,7 @@ func draw(t *rapid.T) Case {
 		}
 	}
 	c.RD = rapid.SampledFrom([]int{1, 1, 1, 2, 3, 4, 8, 0}).Draw(t, "rd")
-	first := bz.ROp{K: "setcache", A: rapid.IntRange(1, 3).Draw(t, "kind0")*100 + rapid.IntRange(1, 4).Draw(t, "cap0")*2 + rapid.IntRange(0, 1).Draw(t, "stats0")}
+	first := bz.ROp{K: "setcache", A: rapid.IntRange(1, 3).Draw(t, "kind0")*100 + rapid.SampledFrom([]int{1, 1, 2, 2, 3, 4, 8, 16}).Draw(t, "cap0")*2 + rapid.IntRange(0, 1).Draw(t, "stats0")}
 	c.Ops = append([]bz.ROp{first}, rapid.SliceOfN(opGen(), 1, 50).Draw(t, "ops")...)
 	if rapid.IntRange(0, 3).Draw(t, "delay") == 0 {
 		c.Delays = rapid.SliceOfN(rapid.SampledFrom([]int{0, 0, 30, 200}), 1, 4).Draw(t, "delays")
@@ -201,7 +207,7 @@ func run(c Case, rec *h.Rec) {
 	}
 	for i := range st.Trace {
 		if st.Trace[i] != st0.Trace[i] {
-			rec.Failf("after op %d (%+v): LastChunk/BlockLen with cache = %s, uncached reader = %s [rd=%d blocks=%v]", i, c.Ops[i], st.Trace[i], st0.Trace[i], c.RD, c.F.Sizes)
+			rec.Failf("observation %d of the history: with cache = %s, uncached reader = %s [rd=%d blocks=%v]", i, st.Trace[i], st0.Trace[i], c.RD, c.F.Sizes)
 			return
 		}
 	}
